@@ -17,7 +17,8 @@ RULE = (
     "registered messages delivered, #deliveries <= #known openers fed, retained <= threshold after every process); 'transparent' "
     "(metamorphic: junk without a known-tag opener between valid messages does not change what is delivered nor when); 'recovery' "
     "(threshold enabled: after a truncated/corrupt element the following valid messages are all delivered, once, in order, once "
-    "threshold+1 characters of '<'-free filler have arrived); 'fuzz' = atheris campaign with the same oracles (thorough). "
+    "threshold+1 characters of '<'-free filler have arrived); 'handlers' (the same retention bound and recovery observed through the client, server and TTY read loops, which call "
+    "Buffer themselves: a truncated element, a valid message, then '>'-free junk in chunks); 'fuzz' = atheris campaign with the same oracles (thorough). "
     "Non-trivial: input has >= 1 '<', >= 1 valid message and >= 2 pieces; distinct = canonical JSON of the case."
 )
 ASSUMPTIONS = [
